@@ -38,6 +38,8 @@ namespace sqf::opcodes
             else if (right_value->is<sqf::types::t_nothing>())
             {
                 vm.__logmsg(logmessage::runtime::NilValueFoundForRightArgumentWeak(diag_info()));
+                // The expression yields one value (nil) in place of its operand
+                context.push_value({});
                 return;
             }
             
